@@ -63,6 +63,11 @@ type vRegHold struct {
 	ch  chan struct{}
 }
 
+type vRegAsk struct {
+	id  string
+	ack chan *PID
+}
+
 type vRegWindow struct {
 	done <-chan struct{}
 	h2   vRegHold
@@ -81,6 +86,12 @@ func runRegHistory(t testing.TB, ops []string) string {
 	if err != nil {
 		t.Fatal(err)
 	}
+	// a long-lived actor that answers lookups through ITS Context.GetPID (one Context for the whole history)
+	asker := e.SpawnFunc(func(c *Context) {
+		if q, ok := c.Message().(vRegAsk); ok {
+			q.ack <- c.GetPID("k/" + q.id)
+		}
+	}, "verifasker")
 	h := &vRegH{recvCh: make(chan string, 16)}
 	rec := &vRegEventRec{h: h, pid: NewPID(e.address, "verif/eventrec")}
 	e.SpawnProc(rec)
@@ -197,10 +208,24 @@ func runRegHistory(t testing.TB, ops []string) string {
 				res = "HANG"
 			}
 			out = append(out, res+"["+strings.Join(h.takeEvents(), ",")+"]")
-		case "gp":
-			if pid := e.Registry.GetPID("k", id); pid != nil {
+		case "gp": // Registry.GetPID and Context.GetPID (asked from inside an actor) must agree
+			reg := e.Registry.GetPID("k", id) != nil
+			q := vRegAsk{id, make(chan *PID, 1)}
+			e.Send(asker, q)
+			ctx := reg
+			select {
+			case p := <-q.ack:
+				ctx = p != nil
+			case <-time.After(3 * time.Second):
+				out = append(out, "NOANSWER")
+				continue
+			}
+			switch {
+			case reg != ctx:
+				out = append(out, fmt.Sprintf("MISMATCH(Registry.GetPID=%v,Context.GetPID=%v)", reg, ctx))
+			case reg:
 				out = append(out, "some")
-			} else {
+			default:
 				out = append(out, "none")
 			}
 		case "sd":
